@@ -194,6 +194,8 @@ type Consent struct {
 	Subject     string
 	Deny        bool
 	Scopes      []string // nil: grant everything requested
+	Audiences   []string // nil: grant every requested audience
+	PartialAud  bool     // Audiences is authoritative (may be empty)
 	AuthAgo     int64    // seconds before the request at which the user authenticated (auth_time); <0: after request
 	NoAuthTime  bool
 	PresetIDExp int64 // >0: session pre-sets the ID token expiry this many seconds from now
@@ -252,7 +254,9 @@ func (a *App) Authorize(query url.Values, c *Consent) *Resp {
 			}
 		}
 		for _, aud := range ar.GetRequestedAudience() {
-			ar.GrantAudience(aud)
+			if !c.PartialAud || fosite.Arguments(c.Audiences).Has(aud) {
+				ar.GrantAudience(aud)
+			}
 		}
 		resp, err := p.NewAuthorizeResponse(ctx, ar, a.session(c, time.Now().UTC()))
 		if err != nil {
